@@ -14,7 +14,7 @@ def run_shell(case):
             with open(p, 'w', encoding='utf-8', newline='') as f:
                 f.write(text)
         spec = os.path.join(d, 'spec.json')
-        json.dump(case.get('spec') or {}, open(spec, 'w', encoding='utf-8'), ensure_ascii=False)
+        json.dump(case.get('spec') or {}, open(spec, 'w', encoding='utf-8'))
         cmd = ['/venv/bin/python', '-m', 'yalafi.shell', '--no-config', '--lt-command',
                '/venv/bin/python %s %s' % (os.path.join(HERE, 'fake_lt.py'), spec)] + list(case.get('args', [])) + list(case['main'])
         env = dict(os.environ, PYTHONPATH=impl.REPO, PYTHONHASHSEED=str(case.get('hashseed', 0)), PYTHONIOENCODING='utf-8')
